@@ -12,7 +12,7 @@ PROPERTY = "C15"
 MS = [1, 2, 3, 10, 50]
 RULE = (
     "all ordered pairs of multisets of <= 2 points of the signed lattice {-2..2}^2, b<=d (either sign, "
-    "diagonal points, the empty (0,2) diagram) x M in {1,2,3,10,50}; per pair: value vs the defining "
+    "diagonal points, the empty (0,2) diagram) x M in {1,2,3,10,50} (and EVERY M in 1..128 / 1..512 on a cover of 55 pairs); per pair: value vs the defining "
     "formula in float64, symmetry, reordered rows, added diagonal points, shifts along the diagonal into "
     "negative and large coordinates, scalings, bound 2*W1; ALL triples per M from the complete table "
     "(triangle inequality). state = (P1,P2,M); transition = one persim.sliced_wasserstein call; "
@@ -115,8 +115,17 @@ def pair(ctx, A, B):
     return out
 
 
+def msweep(ctx, A, B, m_hi):
+    for M in range(1, m_hi + 1):
+        ctx.state((A, B, M))
+        check_val(ctx, "value-M", sw(ctx, A, B, M), A, B, M, "M=%d" % M)
+    ctx.nontriv("all_M_up_to_%d" % m_hi, key=(A, B))
+
+
 def run_case(case, ctx):
     """Replay entry: one pair, or one triple."""
+    if case["kind"] == "msweep":
+        return msweep(ctx, case["A"], case["B"], case["m_hi"])
     if case["kind"] == "pair":
         o = pair(ctx, case["A"], case["B"])
         o2 = {M: sw(ctx, case["B"], case["A"], M) for M in MS}
@@ -149,6 +158,16 @@ def run_shard(ctx):
             case = {"kind": "pair", "A": sp[i], "B": sp[j]}
             ctx.run_case(_M, case, fn=lambda c, cx: res.__setitem__(0, pair(cx, sp[i], sp[j])))
             table[(i, j)] = res[0]
+    # every M in a whole range (the direction grid is built by float accumulation: particular M can
+    # gain or lose a direction), on a cover of pairs
+    cover = [sp[i] for i in (1, 7, 20, 33, 47, 60, 75, 90, 104, 120, 135)]
+    m_hi = 128 if ctx.tier == "quick" else 512
+    jobs = [(a, b) for a in range(len(cover)) for b in range(len(cover)) if a < b]
+    for jx, (a, b) in enumerate(jobs):
+        if jx % ctx.nshards != ctx.shard:
+            continue
+        case = {"kind": "msweep", "A": cover[a], "B": cover[b], "m_hi": m_hi}
+        ctx.run_case(_M, case, fn=lambda c, cx: msweep(cx, c["A"], c["B"], c["m_hi"]))
     full = {}
     for part in allgather(ctx, "c15", table):
         full.update(part)
